@@ -269,8 +269,14 @@ impl FileReader for IOFileReader {
                     .ok()
                     .ok_or(FileReaderError::InvalidPath)?;
                 let parent = parent.parent().ok_or(FileReaderError::InvalidPath)?;
-                parent
-                    .join(path)
+                let joined = parent.join(path);
+                // one name per file, however the directive spells it ("x.s",
+                // "./x.s", "d/../x.s"): diagnostics are grouped, ordered and
+                // de-duplicated by file name. A path that cannot be resolved
+                // is kept as written and fails below, when it is read.
+                joined
+                    .canonicalize()
+                    .unwrap_or(joined)
                     .to_str()
                     .ok_or(FileReaderError::InvalidPath)?
                     .to_owned()
